@@ -18,7 +18,7 @@ def _refs_of_recipe(r) -> set[int]:
     for i in slotty.get(k, []):
         if i < len(a) and isinstance(a[i], int) and not isinstance(a[i], bool):
             out.add(a[i])
-    if k in ("polygon", "rectangle", "simplex") and a:
+    if k in ("polygon", "rectangle", "simplex", "ptlist") and a:
         out.update(x for x in a[0] if isinstance(x, int))
     if k == "diagram":
         for e in r.get("kw", {}).get("edges", []) or (a[0] if a else []):
